@@ -1077,7 +1077,7 @@ class Engine:
 
     def _for_symbolic(self, node, st, seq):
         k_ord = self.loop_ord[id(node)]
-        spec = self.c.loops.get(k_ord)
+        spec = self.loop_spec(node, k_ord)
         if spec is None:
             raise Unsupported(f"loop {k_ord} (line {node.lineno}) over a symbolic sequence has no invariant")
         n = seq.length
@@ -1130,7 +1130,9 @@ class Engine:
     def s_While(self, node, st):
         """while loop cut with contract invariants; optional `decreases` (termination)"""
         k_ord = self.loop_ord[id(node)]
-        spec = self.c.loops.get(k_ord)
+        spec = self.loop_spec(node, k_ord)
+        if spec is None and getattr(self.c, "terminates_role", None):
+            return self._stuck_while(node, st, k_ord)
         if spec is None:
             raise Unsupported(f"while loop {k_ord} (line {node.lineno}) has no invariant")
         if node.orelse:
@@ -1178,6 +1180,47 @@ class Engine:
             for s2, side in self.fork(s1, self.truthy(s1, c), f"while{k_ord}x"):
                 if not side:
                     res.append((s2, Out("next")))
+        return res
+
+    def loop_spec(self, node, k_ord):
+        """loop contracts are keyed by the source text of the iterable / condition (robust against
+        unrelated loops being added or removed) or, failing that, by ordinal in source order"""
+        text = ast.unparse(node.iter if isinstance(node, (ast.For, ast.AsyncFor)) else node.test)
+        if text in self.c.loops:
+            return self.c.loops[text]
+        if any(isinstance(k, str) for k in self.c.loops):
+            return None  # text-keyed contract: an unknown loop has no spec
+        return self.c.loops.get(k_ord)
+
+    def _stuck_while(self, node, st, k_ord):
+        """a `while` loop without a declared variant in a function whose contract demands
+        termination: if one execution of the body leaves the loop condition the very same term
+        (nothing it depends on changes), the loop never ends once entered; the termination
+        obligation is then `not condition` at loop entry.  Anything else stays Unsupported."""
+        res = []
+        for s0, c0, e0 in self.eval(node.test, st):
+            if e0:
+                res.append(self._raise_out(s0, e0))
+                continue
+            t0 = self.truthy(s0, c0)
+            for s1, side in self.fork(s0, t0, f"while{k_ord}"):
+                if not side:
+                    res.append((s1, Out("next")))
+                    continue
+                stuck = True
+                for s2, o in self.exec_block(node.body, s1.copy()):
+                    if o.kind not in ("next", "continue"):
+                        stuck = False
+                        break
+                    for s3, c1, e1 in self.eval(node.test, s2):
+                        t1 = None if e1 else self.truthy(s3, c1)
+                        same = (t1 is t0) or (is_z3(t0) and is_z3(t1) and t0.eq(t1)) or (isinstance(t0, bool) and t0 == t1)
+                        if not same:
+                            stuck = False
+                if not stuck:
+                    raise Unsupported(f"while loop {k_ord} (line {node.lineno}) has no invariant/variant")
+                # entered and stuck: termination fails on this path
+                self.obligations.append(Obligation(f"terminates.loop{k_ord}-is-left", self.c.terminates_role, list(s1.pc), False, "/".join(s1.decisions), "while"))
         return res
 
     def havoc_fields(self, st, body, tag):
@@ -1894,6 +1937,12 @@ class Engine:
             exc = ExcV(raises, (), self.fresh("exc", U))
             s_r.trace.append(Ev(name, args, kwargs, None, True, label, dict(s_r.fields)))
             out.append((s_r, None, exc))
+            if getattr(self.c, "base_exceptions", False) and raises is None:
+                # ... or a BaseException that is not an Exception (KeyboardInterrupt, SystemExit)
+                s_b = st.copy()
+                s_b.decisions.append(f"call:{name}:raise-base")
+                s_b.trace.append(Ev(name, args, kwargs, None, True, label, dict(s_b.fields)))
+                out.append((s_b, None, ExcV("KeyboardInterrupt", (), self.fresh("exc", U))))
         s_ok = st
         s_ok.decisions.append(f"call:{name}:ok")
         if returns is None:
